@@ -192,6 +192,28 @@ def checksum_token_bounded(ctx, P):
               ok, function=fp.path, takes=takes, users=users, missing=(unbounded or ['no constant-count take / other users: %s' % users]) if not ok else None)
 
 
+def headers_accumulate(ctx, P):
+    """Armor headers are a multimap: the writer emits one `Key: value` line per value.  The reader's collection of key/value lines
+    therefore has to ACCUMULATE values under a repeated key (`entry(k).or_default().push(v)`), not overwrite them (`insert`, or
+    `collect()` into a map, which keeps only the last value)."""
+    fp = ctx.body('armor::reader::armor_headers')
+    if fp is None:
+        return
+    bodies = [fp] + [ctx.wrap(r) for r in ctx.f.closures_of(fp.path)]
+    acc, over = [], []
+    for b in bodies:
+        for i, t in b.calls():
+            full = t['f'].get('full', '') or ''
+            fn = t['f']['fn']
+            if re.search(r'btree_map::Entry::<.*>::(or_default|or_insert|or_insert_with)$', full) or re.search(r'Entry::<.*>::(or_default|or_insert)', fn):
+                acc.append(site(b, i))
+            if re.search(r'BTreeMap::<.*>::insert$', full) or (re.search(r'Iterator::collect$|FromIterator::from_iter$', fn) and 'BTreeMap' in full):
+                over.append(site(b, i))
+    pushes = [site(b, i) for b in bodies for i, t in b.calls(r'Vec::<T, A>::(push|extend)$')]
+    ctx.check(P + ':headers-accumulate', 'R-table', 'armor_headers accumulates the values of a repeated header key (entry + push), it does not overwrite them',
+              bool(acc) and bool(pushes) and not over, function=fp.path, sites=acc, missing=over or (None if acc else ['no entry().or_default() accumulation found']))
+
+
 def run(ctx):
     P = 'C10'
     stream.r_lost(ctx, P, 'S10-1')
@@ -265,6 +287,7 @@ def run(ctx):
     header_line_separator(ctx, P)
     header_key_line_bounded(ctx, P)
     checksum_token_bounded(ctx, P)
+    headers_accumulate(ctx, P)
     stream.partial_buffer_verdicts(ctx, P)
     # tolerant reading must not panic on any armored input: the R-panic inventory of C04 restricted to the armor / base64 / line-writer modules
     from rules import c04
